@@ -211,6 +211,8 @@ def extract_libflags(plat):
         raise ExtractError("`let flags = flags | siginfo;` not found")
     if not re.search(r"new\.sa_flags\s*=\s*flags\s+as\s+_\s*;", body):
         raise ExtractError("`new.sa_flags = flags as _;` not found")
+    if len(re.findall(r"\bsa_flags\b", body)) != 1 or len(re.findall(r"\bflags\b\s*(?:\|=|&=|\^=)", body)) != 0:
+        raise ExtractError("Slot::new touches sa_flags / flags in a way the translator does not understand")
 
     def val(e):
         tot = 0
